@@ -40,7 +40,8 @@ Where the document is silent this file chooses, and says so:
   order sent;
 * `Expires` is a decimal integer (a sign is tolerated; the property does not fix the lexical form);
 * when a request carries both a `Signature` query parameter and an `Authorization` header the query
-  parameters are the credentials looked at.
+  parameters are the credentials looked at;
+* a request that repeats the `Authorization` header is malformed and presents no credentials.
 Core Lean only; `exampleN` are the documentation examples quoted by the repo's unit tests.
 -/
 namespace S3V.SigV2Spec
@@ -235,16 +236,24 @@ structure Creds where
   expires : Option Int
 deriving DecidableEq, Repr
 
-/-- the V2 credentials a request presents, if it presents them completely -/
+/-- query-string authentication: `AWSAccessKeyId`, `Signature` and `Expires`, each exactly once -/
+def queryCredentials (r : Req) : Option Creds :=
+  match paramValues r (sp!"AWSAccessKeyId"), paramValues r (sp!"Signature"), paramValues r (sp!"Expires") with
+  | [ak], [sg], [ex] => (expiresValue ex).map fun e => ⟨.query, ak, sg, some e⟩
+  | _, _, _ => none
+
+/-- header authentication: the `Authorization` field -/
+def headerCredentials (r : Req) : Option Creds :=
+  match fieldValues r (sp!"authorization") with
+  | [a] => (parseAuthorization a).map fun x => ⟨.header, x.1, x.2, none⟩
+  | _ => none
+
+/-- the V2 credentials a request presents, if it presents them completely. `Authorization` is not a list
+    field (RFC 7235 §4.2): a request that repeats it is malformed and presents nothing. -/
 def credentials (r : Req) : Option Creds :=
-  if paramValues r (sp!"Signature") ≠ [] then
-    match paramValues r (sp!"AWSAccessKeyId"), paramValues r (sp!"Signature"), paramValues r (sp!"Expires") with
-    | [ak], [sg], [ex] => (expiresValue ex).map fun e => ⟨.query, ak, sg, some e⟩
-    | _, _, _ => none
-  else
-    match fieldValues r (sp!"authorization") with
-    | [a] => (parseAuthorization a).map fun (ak, sg) => ⟨.header, ak, sg, none⟩
-    | _ => none
+  if (fieldValues r (sp!"authorization")).length ≥ 2 then none
+  else if paramValues r (sp!"Signature") ≠ [] then queryCredentials r
+  else headerCredentials r
 
 /-- a time stamp is mandatory for header authentication (Date or x-amz-date) -/
 def hasDate (r : Req) : Bool := fieldValues r (sp!"date") ≠ [] || fieldValues r (sp!"x-amz-date") ≠ []
